@@ -233,6 +233,23 @@ def relabel(recs, kind, rng):
         lo = {c: min(r.resnum for r in recs if r.raw is None and r.chain == c) for c in chains}
         hi = {c: max(r.resnum for r in recs if r.raw is None and r.chain == c) for c in chains}
         sh = {}
+        if rng.random() < 0.2:
+            # not a shift but another order-preserving renumbering: the distinct numbers of a chain, in increasing
+            # order, become consecutive numbers (gaps closed) or every second / third number (gaps opened)
+            step = rng.choice((1, 1, 2, 3))
+            maps = {}
+            for c in chains:
+                nums = sorted({r.resnum for r in recs if r.raw is None and r.chain == c})
+                start = rng.choice((1, nums[0], -5, 100))
+                if start + step * len(nums) > 9999:
+                    start = 1
+                maps[c] = {n_: start + step * k_ for k_, n_ in enumerate(nums)}
+            for r in recs:
+                if r.raw is None:
+                    r = r.copy()
+                    r.resnum = maps[r.chain][r.resnum]
+                out.append(r)
+            return out, {"shift": "monotone map, step %d" % step, "crosses_zero": False, "packed": False}
         packed = None
         if len(chains) >= 2 and all(c.strip() for c in chains) and rng.random() < 0.25:
             # all chains shifted so that their numbers differ by a round multiple of the distance of their
@@ -342,6 +359,18 @@ def run_case(case, tier):
             if frag:
                 recs = recs + frag
         classes.append("ligand-copies-in-two-chains")
+    if case["kind"] not in ("file", "his-amide") and rng.random() < 0.2:
+        # a ligand deposited as two linked hetero residues (numbers n and n + 2): its groups are a few bonds apart
+        # and in different residues, with a gap in the numbering that an order-preserving renumbering may close
+        from .. import fragments
+        from .c16 import titratable_anchor
+        fname = rng.choice(("ethylenediamine", "triamine", "pentamine", "hexamine", "methylphosphate"))
+        num = rng.randrange(500, 590)
+        frag, _e, _d = fragments.place_near(recs, fname, rng, anchor=titratable_anchor(recs, rng), dist_A=rng.choice((3.5, 4.5, 6.0)),
+                                            chain=rng.choice(sorted({r.chain for r in recs if r.raw is None})), resnum=num)
+        if frag:
+            recs = recs + fragments.split_over_two_residues(frag, num + 2)
+            classes.append("ligand-split-over-two-residues")
     if not sources.identities_unique(recs):
         return util.finish(case, viol, counts, classes, False, {"skipped": "two residues share one identity"},
                            inconclusive="ill-formed")
